@@ -232,7 +232,12 @@ func (v *aBasic) Bin() (b []byte) {
 
 	case *U64:
 		b = make([]byte, 8)
-		i, _ := strconv.ParseUint(v.Name(), 0, 64)
+		i, err := strconv.ParseUint(v.Name(), 0, 64)
+		if err != nil {
+			// 大于等于 1<<63 的常量以有符号形式书写(比如 -1), 参见 getValue
+			s64, _ := strconv.ParseInt(v.Name(), 0, 64)
+			i = uint64(s64)
+		}
 		si := uint64(i)
 		b[0] = byte(si & 0xFF)
 		b[1] = byte((si >> 8) & 0xFF)
